@@ -15,36 +15,43 @@ pub struct RollFn {
     pub mp_none_needs_len_ge_w: bool,
     /// extra request parameters (e.g. " d=1/2")
     pub extra: &'static str,
+    /// natural scale of the output, used as the floor of the relative tolerance:
+    /// "1" dimensionless, "level" = sqrt(E[y^2]), "sd", "var", "sdxsdy", "sdy/sdx"
+    pub unit: &'static str,
 }
 
 const fn f(name: &'static str, nullable: bool, pow: u32) -> RollFn {
-    RollFn { name, arity: 1, nullable, exact: false, family: "feat", pow, mp_none_needs_len_ge_w: false, extra: "" }
+    RollFn { name, arity: 1, nullable, exact: false, family: "feat", pow, mp_none_needs_len_ge_w: false, extra: "", unit: "1" }
+}
+
+const fn fu(name: &'static str, nullable: bool, pow: u32, unit: &'static str) -> RollFn {
+    RollFn { name, arity: 1, nullable, exact: false, family: "feat", pow, mp_none_needs_len_ge_w: false, extra: "", unit }
 }
 
 pub const ROLL: &[RollFn] = &[
     f("ts_vsum", true, 1), f("ts_vmean", true, 1), f("ts_vewm", true, 1), f("ts_vwma", true, 1),
-    f("ts_vstd", true, 2), f("ts_vvar", true, 2), f("ts_vskew", true, 3), f("ts_vkurt", true, 4),
+    fu("ts_vstd", true, 2, "sd"), fu("ts_vvar", true, 2, "var"), f("ts_vskew", true, 3), f("ts_vkurt", true, 4),
     f("ts_sum", false, 1), f("ts_mean", false, 1), f("ts_ewm", false, 1), f("ts_wma", false, 1),
-    f("ts_std", false, 2), f("ts_var", false, 2), f("ts_skew", false, 3), f("ts_kurt", false, 4),
-    RollFn { name: "ts_vmin", arity: 1, nullable: true, exact: true, family: "cmp", pow: 1, mp_none_needs_len_ge_w: true, extra: "" },
-    RollFn { name: "ts_vmax", arity: 1, nullable: true, exact: true, family: "cmp", pow: 1, mp_none_needs_len_ge_w: true, extra: "" },
-    RollFn { name: "ts_vargmin", arity: 1, nullable: true, exact: true, family: "cmp", pow: 1, mp_none_needs_len_ge_w: true, extra: "" },
-    RollFn { name: "ts_vargmax", arity: 1, nullable: true, exact: true, family: "cmp", pow: 1, mp_none_needs_len_ge_w: true, extra: "" },
-    RollFn { name: "ts_vrank", arity: 1, nullable: true, exact: true, family: "cmp", pow: 1, mp_none_needs_len_ge_w: true, extra: " pct=0 rev=0" },
-    RollFn { name: "ts_vminmaxnorm", arity: 1, nullable: true, exact: false, family: "norm", pow: 1, mp_none_needs_len_ge_w: false, extra: "" },
-    RollFn { name: "ts_vzscore", arity: 1, nullable: true, exact: false, family: "norm", pow: 2, mp_none_needs_len_ge_w: false, extra: "" },
-    RollFn { name: "ts_vcov", arity: 2, nullable: true, exact: false, family: "binary", pow: 2, mp_none_needs_len_ge_w: false, extra: "" },
-    RollFn { name: "ts_vcorr", arity: 2, nullable: true, exact: false, family: "binary", pow: 2, mp_none_needs_len_ge_w: false, extra: "" },
-    RollFn { name: "ts_vregx_alpha", arity: 2, nullable: true, exact: false, family: "regx", pow: 2, mp_none_needs_len_ge_w: false, extra: "" },
-    RollFn { name: "ts_vregx_beta", arity: 2, nullable: true, exact: false, family: "regx", pow: 2, mp_none_needs_len_ge_w: false, extra: "" },
-    RollFn { name: "ts_vregx_resid_mean", arity: 2, nullable: true, exact: false, family: "regx", pow: 2, mp_none_needs_len_ge_w: false, extra: "" },
-    RollFn { name: "ts_vregx_resid_std", arity: 2, nullable: true, exact: false, family: "regx", pow: 2, mp_none_needs_len_ge_w: false, extra: "" },
-    RollFn { name: "ts_vregx_resid_skew", arity: 2, nullable: true, exact: false, family: "regx", pow: 3, mp_none_needs_len_ge_w: false, extra: "" },
-    RollFn { name: "ts_vreg", arity: 1, nullable: true, exact: false, family: "trend", pow: 2, mp_none_needs_len_ge_w: false, extra: "" },
-    RollFn { name: "ts_vtsf", arity: 1, nullable: true, exact: false, family: "trend", pow: 2, mp_none_needs_len_ge_w: false, extra: "" },
-    RollFn { name: "ts_vreg_slope", arity: 1, nullable: true, exact: false, family: "trend", pow: 2, mp_none_needs_len_ge_w: false, extra: "" },
-    RollFn { name: "ts_vreg_intercept", arity: 1, nullable: true, exact: false, family: "trend", pow: 2, mp_none_needs_len_ge_w: false, extra: "" },
-    RollFn { name: "ts_vreg_resid_mean", arity: 1, nullable: true, exact: false, family: "trend", pow: 2, mp_none_needs_len_ge_w: false, extra: "" },
+    fu("ts_std", false, 2, "sd"), fu("ts_var", false, 2, "var"), f("ts_skew", false, 3), f("ts_kurt", false, 4),
+    RollFn { name: "ts_vmin", arity: 1, nullable: true, exact: true, family: "cmp", pow: 1, mp_none_needs_len_ge_w: true, extra: "", unit: "1" },
+    RollFn { name: "ts_vmax", arity: 1, nullable: true, exact: true, family: "cmp", pow: 1, mp_none_needs_len_ge_w: true, extra: "", unit: "1" },
+    RollFn { name: "ts_vargmin", arity: 1, nullable: true, exact: true, family: "cmp", pow: 1, mp_none_needs_len_ge_w: true, extra: "", unit: "1" },
+    RollFn { name: "ts_vargmax", arity: 1, nullable: true, exact: true, family: "cmp", pow: 1, mp_none_needs_len_ge_w: true, extra: "", unit: "1" },
+    RollFn { name: "ts_vrank", arity: 1, nullable: true, exact: true, family: "cmp", pow: 1, mp_none_needs_len_ge_w: true, extra: " pct=0 rev=0", unit: "1" },
+    RollFn { name: "ts_vminmaxnorm", arity: 1, nullable: true, exact: false, family: "norm", pow: 1, mp_none_needs_len_ge_w: false, extra: "", unit: "1" },
+    RollFn { name: "ts_vzscore", arity: 1, nullable: true, exact: false, family: "norm", pow: 2, mp_none_needs_len_ge_w: false, extra: "", unit: "1" },
+    RollFn { name: "ts_vcov", arity: 2, nullable: true, exact: false, family: "binary", pow: 2, mp_none_needs_len_ge_w: false, extra: "", unit: "sdxsdy" },
+    RollFn { name: "ts_vcorr", arity: 2, nullable: true, exact: false, family: "binary", pow: 2, mp_none_needs_len_ge_w: false, extra: "", unit: "1" },
+    RollFn { name: "ts_vregx_alpha", arity: 2, nullable: true, exact: false, family: "regx", pow: 2, mp_none_needs_len_ge_w: false, extra: "", unit: "level" },
+    RollFn { name: "ts_vregx_beta", arity: 2, nullable: true, exact: false, family: "regx", pow: 2, mp_none_needs_len_ge_w: false, extra: "", unit: "sdy/sdx" },
+    RollFn { name: "ts_vregx_resid_mean", arity: 2, nullable: true, exact: false, family: "regx", pow: 2, mp_none_needs_len_ge_w: false, extra: "", unit: "sd" },
+    RollFn { name: "ts_vregx_resid_std", arity: 2, nullable: true, exact: false, family: "regx", pow: 2, mp_none_needs_len_ge_w: false, extra: "", unit: "sd" },
+    RollFn { name: "ts_vregx_resid_skew", arity: 2, nullable: true, exact: false, family: "regx", pow: 3, mp_none_needs_len_ge_w: false, extra: "", unit: "1" },
+    RollFn { name: "ts_vreg", arity: 1, nullable: true, exact: false, family: "trend", pow: 2, mp_none_needs_len_ge_w: false, extra: "", unit: "level" },
+    RollFn { name: "ts_vtsf", arity: 1, nullable: true, exact: false, family: "trend", pow: 2, mp_none_needs_len_ge_w: false, extra: "", unit: "level" },
+    RollFn { name: "ts_vreg_slope", arity: 1, nullable: true, exact: false, family: "trend", pow: 2, mp_none_needs_len_ge_w: false, extra: "", unit: "sd" },
+    RollFn { name: "ts_vreg_intercept", arity: 1, nullable: true, exact: false, family: "trend", pow: 2, mp_none_needs_len_ge_w: false, extra: "", unit: "level" },
+    RollFn { name: "ts_vreg_resid_mean", arity: 1, nullable: true, exact: false, family: "trend", pow: 2, mp_none_needs_len_ge_w: false, extra: "", unit: "var" },
     // CATALOG-APPEND (entries of merged properties go above this line)
 ];
 
@@ -60,9 +67,10 @@ pub const VALS_B: &[&str] = &["2", "1", "5", "3", "8", "4", "9", "7", "6", "3", 
 /// The one-pass formulas compute `var = E[x^2] - mean^2` (and higher central moments likewise):
 /// with exact power sums the only error is the rounding of the final operations, amplified by
 /// the conditioning `kappa = E[x^2] / var` of the window: relative error ~ eps * kappa^(pow/2).
-/// Returns `1e-9 + 256 * 2^-52 * kappa^(pow/2)` per output position for entry points with
+/// Returns `(1e-9 + 256 * 2^-52 * kappa^(pow/2), floor)` per output position — the comparison is
+/// `|impl - model| <= rel * max(floor, |model|)` with `floor` the natural scale of the output (see `unit`) — for entry points with
 /// `pow >= 2` (kappa taken over both series for two-series functions), None otherwise.
-pub fn cond_tols(r: &crate::proto::Req) -> Option<Vec<f64>> {
+pub fn cond_tols(r: &crate::proto::Req) -> Option<Vec<(f64, f64)>> {
     let f = find(&r.f)?;
     if f.pow < 2 || !r.has("w") {
         return None;
@@ -70,11 +78,12 @@ pub fn cond_tols(r: &crate::proto::Req) -> Option<Vec<f64>> {
     let w = r.usize("w").max(1);
     let xs = r.series("xs");
     let ys = if f.arity == 2 { r.series("ys") } else { vec![] };
-    let kappa = |v: &[Option<f64>], mask: &[bool]| -> f64 {
+    // (kappa, sd, level) of the masked window
+    let kappa = |v: &[Option<f64>], mask: &[bool]| -> (f64, f64, f64) {
         let vals: Vec<f64> = v.iter().zip(mask.iter()).filter(|(_, m)| **m).filter_map(|(x, _)| *x).collect();
         let n = vals.len() as f64;
         if vals.len() < 2 {
-            return 1.0;
+            return (1.0, 0.0, vals.first().map(|x| x.abs()).unwrap_or(0.0));
         }
         let mut s1 = 0.0;
         let mut s2 = 0.0;
@@ -84,21 +93,34 @@ pub fn cond_tols(r: &crate::proto::Req) -> Option<Vec<f64>> {
         }
         let ex2 = s2 / n;
         let var = ex2 - (s1 / n) * (s1 / n);
-        if var <= 0.0 || ex2 <= 0.0 { 1.0 } else { (ex2 / var).max(1.0) }
+        let k = if var <= 0.0 || ex2 <= 0.0 { 1.0 } else { (ex2 / var).max(1.0) };
+        (k, var.max(0.0).sqrt(), ex2.max(0.0).sqrt())
     };
     let mut out = Vec::with_capacity(xs.len());
     for i in 0..xs.len() {
         let lo = (i + 1).saturating_sub(w);
         let wx = &xs[lo..=i];
-        let k = if f.arity == 2 && ys.len() == xs.len() {
+        // first series of a two-series function is y, the second x
+        let (k, sdy, lvy, sdx) = if f.arity == 2 && ys.len() == xs.len() {
             let wy = &ys[lo..=i];
             let mask: Vec<bool> = wx.iter().zip(wy.iter()).map(|(a, b)| a.is_some() && b.is_some()).collect();
-            kappa(wx, &mask).max(kappa(wy, &mask))
+            let (k1, s1, l1) = kappa(wx, &mask);
+            let (k2, s2, _) = kappa(wy, &mask);
+            (k1.max(k2), s1, l1, s2)
         } else {
             let mask = vec![true; wx.len()];
-            kappa(wx, &mask)
+            let (k1, s1, l1) = kappa(wx, &mask);
+            (k1, s1, l1, s1)
         };
-        out.push(1e-9 + 256.0 * f64::EPSILON * k.powf(f.pow as f64 / 2.0));
+        let floor = match f.unit {
+            "level" => lvy,
+            "sd" => sdy,
+            "var" => sdy * sdy,
+            "sdxsdy" => sdy * sdx,
+            "sdy/sdx" => if sdx > 0.0 { sdy / sdx } else { 1.0 },
+            _ => 1.0,
+        };
+        out.push((1e-9 + 256.0 * f64::EPSILON * k.powf(f.pow as f64 / 2.0), floor));
     }
     Some(out)
 }
